@@ -132,8 +132,9 @@ void Log::debugLog(std::string&& buf) {
   }
 
   auto* q = state_.getCurrentQueue();
-  q->emplace_back(std::move(buf));
+  // account for the size before the string is moved from
   state_.curSize += buf.size();
+  q->emplace_back(std::move(buf));
   state_.cv.notify_one();
 }
 
